@@ -445,6 +445,12 @@ impl Model {
         }
     }
 
+    /// no relation exists that a fresh snapshot cannot see but whose pages are still allocated (a rolled-back or
+    /// still-open CREATE, a DROP that no VACUUM has purged yet)
+    pub fn no_invisible_relations(&self) -> bool {
+        self.tables.iter().all(|tb| tb.purged || (matches!(self.txs[tb.created_by as usize].state, TxState::Committed(_)) && tb.dropped_by.is_none()))
+    }
+
     /// checkpoint-time writers whose fate is still open
     pub fn undecided_ckpt_writers(&self) -> usize {
         self.ckpt_writers.iter().filter(|t| self.txs[**t as usize].state == TxState::Active).count()
